@@ -435,3 +435,178 @@ def check_c18(tier, seed, log=print):
                                   'the abstract token lists are also run through the Lean model Attr.parseArgs and compared with the real parser (error classes, callback presence); non-trivial = group with >= 3 orders',
                              samples=samples, model_vs_impl_disagreements=tie_dis))
     return run.finish()
+
+
+# ------------------------------------------------------------------------------------------------
+# C17: strip_attributes + logos-cli
+# ------------------------------------------------------------------------------------------------
+import shutil, re as _re
+
+
+def build_cli():
+    tdir = os.path.join(P.HARNESS, 'target-cli')
+    p = subprocess.run(['cargo', 'build', '--offline', '-p', 'logos-cli', '--manifest-path', '/repo/Cargo.toml', '--target-dir', tdir],
+                       capture_output=True, text=True, env=dict(os.environ, CARGO_NET_OFFLINE='true'))
+    if p.returncode != 0:
+        return None, p.stderr[-2000:]
+    return os.path.join(tdir, 'debug', 'logos-cli'), ''
+
+
+def derive_tokens(src):
+    """abstract tokens of every #[derive(...)] list in an enum source (for the model tie)"""
+    out = []
+    for m in _re.finditer(r'#\[derive\(([^)]*)\)\]', src):
+        body = m.group(1)
+        toks = []
+        for t in _re.findall(r'[A-Za-z_][A-Za-z0-9_]*|::|,|\S', body):
+            if t == ',':
+                toks.append('c')
+            elif t == '::':
+                toks += ['p:58', 'p:58']
+            elif _re.match(r'[A-Za-z_]', t):
+                toks.append('i:' + t)
+            else:
+                toks.append('p:%d' % ord(t[0]))
+        out.append(toks)
+    return out
+
+
+def check_c17(tier, seed, log=print):
+    run = start('C17', tier, seed)
+    R = random.Random(seed)
+    cases = F.fam_c17(R, 60 if tier == 'quick' else 600)
+    caps = P.run_capture([c['src'] for c in cases], code=True, strip=True)
+    cli, err = build_cli()
+    if cli is None:
+        run.violation('cli-build', dict(stderr=err), no_input=True)
+    wdir = os.path.join(P.WORK, 'c17')
+    shutil.rmtree(wdir, ignore_errors=True)
+    os.makedirs(wdir, exist_ok=True)
+    n = 0
+    nontriv = set()
+    samples = []
+    lean_lines = ['CASE s']
+    tie_cases = []
+    for i, c in enumerate(cases):
+        cap = caps[i]
+        n += 1
+        if cap is None or cap.strip is None:
+            run.violation('strip-failed', dict(definition=c['src'], what='strip_attributes panicked or produced nothing'), key='strip|' + c['src'])
+            continue
+        stripped = bytes.fromhex(cap.strip).decode('utf-8')
+        if '::' in c['src'].split('pub enum')[0]:
+            nontriv.add(i)
+        if cap.stripchk != 'OK':
+            run.violation('strip', dict(definition=c['src'], stripped=stripped, what=cap.stripchk), key='strip|' + c['src'])
+        if cap.verdict == 'ACCEPT' and cap.codevalid is False:
+            run.violation('invalid-rust', dict(definition=c['src'], what='generated implementation does not parse as Rust'), key='valid|' + c['src'])
+        for toks in derive_tokens(c['src']):
+            lean_lines.append('Q STRIPDERIVE ' + ' '.join(toks))
+            tie_cases.append((i, toks))
+        if len(samples) < 4 and i in nontriv:
+            samples.append(dict(definition=c['src'], stripped=stripped[:300]))
+    # model tie for the derive-list rewrite: the model's output must be the derive list found in the real output
+    ans = P.run_lean(lean_lines, nproc=1)
+    tie_dis = 0
+    per_case = {}
+    for (i, toks) in tie_cases:
+        per_case.setdefault(i, []).append(ans.get('s STRIPDERIVE ' + ' '.join(toks), ''))
+    for i, outs in per_case.items():
+        cap = caps[i]
+        if cap is None or cap.strip is None:
+            continue
+        stripped = bytes.fromhex(cap.strip).decode('utf-8')
+        real = [''.join(t.split()) for t in _re.findall(r'#\s*\[\s*derive\s*\(([^)]*)\)\s*\]', stripped)]
+        model = []
+        for o in outs:
+            s_ = ''
+            for t in o.split(' '):
+                if t.startswith('i:'):
+                    s_ += t[2:]
+                elif t == 'c':
+                    s_ += ','
+                elif t.startswith('p:'):
+                    s_ += chr(int(t[2:]))
+            model.append(s_)
+        if real != model:
+            tie_dis += 1
+            run.violation('tie', dict(definition=cases[i]['src'], real_derive_lists=real, model_derive_lists=model,
+                                      correspondence='strip_attributes derive rewrite vs LogosModel.Strip.stripFixed'), no_input=True, key='striptie|' + cases[i]['src'])
+    # logos-cli: output = stripped enum + implementation; sequences of write / check invocations
+    cli_runs = 0
+    if cli is not None:
+        cq = ['CASE c']
+        seqs = []
+        for i, c in enumerate(cases[: (25 if tier == 'quick' else 200)]):
+            cap = caps[i]
+            if cap is None or cap.strip is None or cap.codetext is None:
+                continue
+            inp = os.path.join(wdir, 'in%d.rs' % i)
+            outp = os.path.join(wdir, 'out%d.rs' % i)
+            open(inp, 'w').write(c['src'])
+            expected = bytes.fromhex(cap.strip).decode('utf-8') + cap.codetext
+            RR = random.Random(seed * 31 + i)
+            ops = [RR.choice(['write', 'check', 'check', 'corrupt', 'crlf', 'delete', 'append_nl']) for _ in range(6)]
+            ops = ['check'] + ops   # check on a missing file first
+            state = None
+            for op in ops:
+                if op == 'corrupt':
+                    open(outp, 'w').write('some random data')
+                    state = 'some random data'
+                    continue
+                if op == 'crlf' and state is not None:
+                    state = state.replace('\r\n', '\n').replace('\n', '\r\n')
+                    open(outp, 'w', newline='').write(state)
+                    continue
+                if op == 'append_nl' and state is not None:
+                    state = state + '\n'
+                    open(outp, 'w', newline='').write(state)
+                    continue
+                if op == 'delete':
+                    if os.path.exists(outp):
+                        os.remove(outp)
+                    state = None
+                    continue
+                if op not in ('write', 'check'):
+                    continue
+                args = [cli, inp, '--output', outp] + (['--check'] if op == 'check' else [])
+                p = subprocess.run(args, capture_output=True, text=True)
+                cli_runs += 1
+                after = open(outp, newline='').read() if os.path.exists(outp) else None
+                seqs.append((i, op, state, p.returncode, after, expected))
+                state = after
+        for (i, op, before, rc, after, expected) in seqs:
+            cq.append('Q CLI %d %s %s' % (1 if op == 'check' else 0, 'none' if before is None else hexs(before.encode('utf-8')), hexs(expected.encode('utf-8'))))
+        mans = P.run_lean(cq, nproc=1)
+        for (i, op, before, rc, after, expected) in seqs:
+            # property oracle
+            msg = None
+            holds = before is not None and before.splitlines() == expected.splitlines()
+            if op == 'check':
+                if after != before:
+                    msg = '--check modified the output file'
+                elif (rc == 0) != holds:
+                    msg = '--check exit status %d although the file %s the expected output' % (rc, 'holds' if holds else 'does not hold')
+            else:
+                if rc != 0:
+                    msg = 'write failed'
+                elif after is None or after.splitlines() != expected.splitlines():
+                    msg = 'file after write is not (stripped enum + implementation)'
+            if msg:
+                run.violation('cli', dict(definition=cases[i]['src'], op=op, exit=rc, file_before=(before or '')[:200], what=msg),
+                              key='cli|%s|%s' % (cases[i]['src'], op))
+            q = 'c CLI %d %s %s' % (1 if op == 'check' else 0, 'none' if before is None else hexs(before.encode('utf-8')), hexs(expected.encode('utf-8')))
+            mv = mans.get(q, '')
+            real = '%s %s' % ('ok' if rc == 0 else 'failed', 'none' if after is None else hexs(after.encode('utf-8')))
+            if mv and mv != real:
+                tie_dis += 1
+                if not msg:
+                    run.violation('tie', dict(definition=cases[i]['src'], op=op, model=mv[:100], real=real[:100],
+                                              correspondence='logos-cli main vs LogosModel.Strip.cliRun'), no_input=True, key='clitie|%s|%s' % (cases[i]['src'], op))
+    run.coverage.update(dict(evaluations=n + cli_runs, distinct_nontrivial=len(nontriv), cli_invocations=cli_runs,
+                             rule='enum sources with derives in every position (plain, path-qualified, leading ::, several derive attributes, trailing commas), cfg_attr, repr, doc comments, variant and field attributes; '
+                                  'strip_attributes output compared structurally (syn) with the input: same header, variants, fields, every non-logos attribute, derive paths minus Logos; generated code parses as a Rust file; '
+                                  'the real logos-cli binary run through random sequences of write / --check / corrupt / CRLF-convert / delete with file snapshots; non-trivial = input has a path-qualified derive',
+                             samples=samples, model_vs_impl_disagreements=tie_dis))
+    run.assumptions += ['--format (rustfmt) is not exercised', 'which paths "denote Logos" is taken as: last path segment is `Logos`']
+    return run.finish()
